@@ -72,6 +72,14 @@ def rule_guard(ctx: Ctx, rule: str = "C11.guard"):
     rep.floor(rule, "enqueuing paths of start()", n_put, 1)
 
 
+def _is_initial_literal(ctx: Ctx, a: ast.AST, fn) -> bool:
+    """The literal '__initial__', written out or through a module-level constant."""
+    if isinstance(a, ast.Name):
+        c = ctx.r.constant_tuple(a.id, fn)
+        a = c if c is not None else a
+    return isinstance(a, ast.Constant) and a.value == "__initial__"
+
+
 def rule_who(ctx: Ctx):
     rep, k = ctx.rep, ctx.k
     g = callgraph(ctx)
@@ -79,7 +87,7 @@ def rule_who(ctx: Ctx):
     for fn in ctx.p.all_functions():
         for n in own_nodes(fn.node):
             if isinstance(n, ast.Call) and show(n.func) in ("BoundEvent", "Event", "TriggerData") and any(
-                    isinstance(a, ast.Constant) and a.value == "__initial__" for a in list(n.args) + [kw.value for kw in n.keywords]):
+                    _is_initial_literal(ctx, a, fn) for a in list(n.args) + [kw.value for kw in n.keywords]):
                 sites.append((fn, n))
     rep.floor("C11.who", "constructions of the initial trigger", len(sites), 1)
     for fn, n in sites:
